@@ -420,4 +420,7 @@ def run(ctx):
     ctx.guard(r10, ctx, prog)
     from rules import C18_replay
     ctx.guard(C18_replay.r11, ctx, prog)
+    from tbxlint import shared
+    ctx.guard(shared.rule, ctx, prog, 'C18.R12', 'A6 no state shared between schedulers behind their back: the scheduler, the routine and the primitives keep no mutable static data member, '
+              'function-local static or file-scope variable (two schedulers on two loops would touch it without any lock)', ['tbox::coroutine::'], ['coroutine/scheduler.cpp'], {}, 10)
     return prog
